@@ -307,10 +307,38 @@ func checkC14(w *Worker) {
 			lg[i].Date = t.Format(format)
 		}
 		text := renderLog(lg)
-		c1 := appCase{Args: []string{"--date-format", format, "print"}, Files: map[string]string{"food.yaml": "", "log.yaml": text}}
+		// a period taken from the scenario's own days: none, from its second day on, up to its second day, second to third
+		period := x.Choose(4, "config:period")
+		pargs := []string{"--date-format", format}
+		if period > 0 && len(sc.Log) >= 3 {
+			lo, hi := -1<<62, 1<<62
+			if period != 2 {
+				lo = dayNumber(sc.Log[1].Date)
+				pargs = append(pargs, "-b", lg[1].Date)
+			}
+			if period == 2 {
+				hi = dayNumber(sc.Log[1].Date)
+				pargs = append(pargs, "-e", lg[1].Date)
+			}
+			if period == 3 {
+				hi = dayNumber(sc.Log[2].Date)
+				pargs = append(pargs, "-e", lg[2].Date)
+			}
+			var sel absLog
+			for i, d := range sc.Log {
+				if n := dayNumber(d.Date); n >= lo && n <= hi {
+					sel = append(sel, lg[i])
+				}
+			}
+			lg = sel
+		} else if period > 0 {
+			x.Case("skip: fewer than three days", false)
+			return
+		}
+		c1 := appCase{Args: append(pargs, "print"), Files: map[string]string{"food.yaml": "", "log.yaml": text}}
 		p1 := runApp(c1)
 		x.Obs(p1.Key())
-		x.Case(sc.Name+format, len(lg) > 0)
+		x.Case(sc.Name+format+fmt.Sprint(period), len(lg) > 0)
 		rep := map[string]interface{}{"scenario": sc.Name, "cmd": tailStr(c1.shell(), 2000), "observed": tailStr(p1.String(), 2000)}
 		if p1.Failed || p1.Panic != "" {
 			x.Violate("C14|special-scenario|print-failed", fmt.Sprintf("scenario %s: %s", sc.Name, tailStr(p1.String(), 600)), rep)
